@@ -341,7 +341,7 @@ CHECKS = {
         "level": "exploration",
         "proc_timeout": "60m",
         "quick": {"procs": 32, "checks_per_proc": 60},
-        "thorough": {"procs": 64, "checks_per_proc": 3000},
+        "thorough": {"procs": 64, "checks_per_proc": 1500},
         "rule": "one case = a seeded account history (0-9 contact / contact-request operations, optionally a joined multi-member group "
                 "with 0-5 metadata/message entries, in half of these cases merged with the entries of another member written while "
                 "partitioned) exported by the real service.export at that point, one archive fault from "
